@@ -7,6 +7,7 @@ import DeadpoolVerif.Model.Unmanaged
 import DeadpoolVerif.Model.PgConfig
 import DeadpoolVerif.Model.RedisConfig
 import DeadpoolVerif.Model.Sync
+import DeadpoolVerif.Model.SyncPools
 
 open DeadpoolVerif
 
@@ -490,10 +491,102 @@ def obsLine (s : Sy.State) : String :=
 
 end SyDrv
 
+namespace SpDrv
+open SP
+
+structure SpState where
+  kind : Kind
+  method : DieselMethod
+  pool : State
+  /-- what is wrong with connection `id` -/
+  conns : List (Nat × Conn) := []
+
+def connOf (d : SpState) (id : Nat) : Conn :=
+  match d.conns.find? (·.1 == id) with
+  | some (_, c) => c
+  | none => {}
+
+def setConn (d : SpState) (id : Nat) (c : Conn) : SpState :=
+  { d with conns := (id, c) :: d.conns.filter (·.1 != id) }
+
+def showCheck : Check → String
+  | .hasBroken => "has_broken"
+  | .isValid => "is_valid"
+  | .txBroken => "tx_broken"
+  | .ping => "ping"
+  | .roundTrip => "round_trip"
+
+def showRes : Res → String
+  | .ok id => s!"ok:{id}"
+  | .timeoutWait => "timeout_wait"
+  | .timeoutCreate => "timeout_create"
+  | .timeoutRecycle => "timeout_recycle"
+  | .closed => "closed"
+  | .noRuntime => "no_runtime"
+  | .backend => "backend"
+  | .postCreateHook => "post_create_hook"
+  | .cancelled => "cancelled"
+  | .panicked => "panicked"
+
+def obs (d : SpState) (extra : String) : String :=
+  let st := d.pool.status
+  s!"spobs {extra} size={st.2.1} avail={st.2.2.1} max={st.1}"
+
+def cfg (ws : List String) : Option SpState :=
+  let kvs := ws.map kv
+  let kind : Option Kind := match lookup kvs "kind" "" with
+    | "sqlite" => some .sqlite | "r2d2" => some .r2d2 | "diesel" => some .diesel | _ => none
+  let m : DieselMethod := if lookup kvs "method" "fast" == "verified" then .verified else .fast
+  match kind, (lookup kvs "max" "").toNat? with
+  | some k, some n => some { kind := k, method := m, pool := init { maxSize := n, rt := true } }
+  | _, _ => none
+
+def handle (d : SpState) (ws : List String) : SpState × String :=
+  let verdict (o : Obj) : Bool := recycleOk d.kind d.method (connOf d o.id)
+  match ws with
+  | ["get"] =>
+    match solo verdict d.pool (.get { wait := .zero }) with
+    | some (s', i) =>
+      let newEvs := s'.log.drop d.pool.log.length
+      let res := newEvs.findSome? fun | .result j r => if j == i then some r else none | _ => none
+      -- the backend calls made on every connection the get looked at (r2d2 only: observable there)
+      let looked := newEvs.filterMap fun | .call _ .recycle _ o => some o.id | _ => none
+      let checked := if d.kind == .r2d2 then
+          -- a poisoned wrapper is rejected without any backend call: nothing to see
+          ",".intercalate ((looked.filter fun id => !(checks d.kind d.method (connOf d id)).isEmpty).map fun id =>
+            s!"{id}:" ++ "+".intercalate ((checks d.kind d.method (connOf d id)).map showCheck))
+        else "-"
+      let d' := { d with pool := s' }
+      (d', obs d' s!"res={match res with | some r => showRes r | none => "unfinished"} checked=[{checked}]")
+    | none => (d, "reject")
+  | ["ret", id] =>
+    match id.toNat?.bind fun id => solo verdict d.pool (.ret id) with
+    | some (s', _) => let d' := { d with pool := s' }; (d', obs d' "returned")
+    | none => (d, "reject")
+  | ["spoil", id, how] =>
+    match id.toNat? with
+    | some id =>
+      let c := connOf d id
+      let c' : Option Conn := match how with
+        | "poison" => some { c with poisoned := true }
+        | "broken" => some { c with broken := true }
+        | "invalid" => some { c with invalid := true }
+        -- an interaction that was cancelled (its closure completes normally) spoils nothing
+        | "cancelled" => some c
+        | _ => none
+      match c' with
+      | some c' => let d' := setConn d id c'; (d', obs d' "spoiled")
+      | none => (d, "bad-op")
+    | none => (d, "bad-op")
+  | _ => (d, "bad-op")
+
+end SpDrv
+
 structure DState where
   managed : Option State := none
   unmanaged : Option U.State := none
   sync : Option Sy.State := none
+  sp : Option SpDrv.SpState := none
 
 def handle (d : DState) (line : String) : DState × Option String :=
   let ws := (line.trimAscii.toString.splitOn " ").filter (· ≠ "")
@@ -506,6 +599,16 @@ def handle (d : DState) (line : String) : DState × Option String :=
   | "end" :: _ => (d, none)
   | "pgcfg" :: rest => (d, some (PgDrv.run rest))
   | "pgquery" :: rest => (d, some (PgDrv.recycling rest))
+  | "sp" :: "cfg" :: rest =>
+    match SpDrv.cfg rest with
+    | some st => ({ d with sp := some st }, some "spobs cfg ok")
+    | none => (d, some "bad-cfg")
+  | "sp" :: rest =>
+    match d.sp with
+    | some st => let (st', out) := SpDrv.handle st rest; ({ d with sp := some st' }, some out)
+    | none => (d, some "bad-op")
+  | "spobs" :: _ => (d, none)
+  | "spx" :: _ => (d, none)
   | "rdin" :: rest => (d, some (RdDrv.run rest))
   | "rdout" :: _ => (d, none)
   | "rdx" :: _ => (d, none)
